@@ -540,19 +540,44 @@ fn cli_env(worker: usize) -> vsim::clisim::run::Env {
 
 /// runs both worlds on the same tree; Some(message) if the observable result differs
 fn cli_worlds_differ(env: &vsim::clisim::run::Env, tree: &vsim::clisim::types::Tree, a: &Inv, b: &Inv) -> Result<Option<String>, String> {
-    vsim::clisim::world::materialise(&env.root(), tree).map_err(|e| e.to_string())?;
+    use vsim::clisim::world::{materialise, snapshot, snapshot_tree};
+    materialise(&env.root(), tree).map_err(|e| e.to_string())?;
     let oa = vsim::clisim::run::run_inv(env, a).map_err(|e| e.to_string())?;
+    let ta = snapshot_tree(&snapshot(&env.root()).map_err(|e| e.to_string())?);
+    materialise(&env.root(), tree).map_err(|e| e.to_string())?;
     let ob = vsim::clisim::run::run_inv(env, b).map_err(|e| e.to_string())?;
+    let tb = snapshot_tree(&snapshot(&env.root()).map_err(|e| e.to_string())?);
     if oa.signal.is_some() || ob.signal.is_some() {
         return Ok(None);
     }
-    if oa.stdout != ob.stdout {
-        let d = vsim::util::first_diff(&oa.stdout, &ob.stdout);
+    let strip = |o: &vsim::clisim::run::Outcome| -> Vec<u8> {
+        // the summary line of format-all contains a duration
+        if matches!(a.shape, Shape::FormatAll { .. }) {
+            // ... and the per-file lines come in the order the directory listing happens to have
+            let mut lines = o.stdout.split(|c| *c == b'\n').filter(|l| !l.windows(3).any(|w| w == b" in") || !l.ends_with(b"s")).collect::<Vec<_>>();
+            lines.sort();
+            lines.join(&b'\n')
+        } else {
+            o.stdout.clone()
+        }
+    };
+    let (sa, sb) = (strip(&oa), strip(&ob));
+    if sa != sb {
+        let d = vsim::util::first_diff(&sa, &sb);
         return Ok(Some(format!(
             "the same text and configuration give different stdout in two CLI processes: first difference at byte {} (world A {:?}, world B {:?}; world B plan {:?}, env {:?})",
             d,
-            vsim::util::excerpt(&oa.stdout[d.min(oa.stdout.len())..], 40),
-            vsim::util::excerpt(&ob.stdout[d.min(ob.stdout.len())..], 40),
+            vsim::util::excerpt(&sa[d.min(sa.len())..], 40),
+            vsim::util::excerpt(&sb[d.min(sb.len())..], 40),
+            b.plan.iter().map(|r| r.render()).collect::<Vec<_>>(),
+            b.env
+        )));
+    }
+    if ta != tb {
+        let k = ta.iter().find(|(k, v)| tb.get(*k) != Some(*v)).map(|(k, _)| k.clone()).or_else(|| tb.keys().find(|k| !ta.contains_key(*k)).cloned()).unwrap_or_default();
+        return Ok(Some(format!(
+            "the same invocation on the same tree leaves a different tree in two CLI processes (first differing path {:?}; world B plan {:?}, env {:?})",
+            k,
             b.plan.iter().map(|r| r.render()).collect::<Vec<_>>(),
             b.env
         )));
@@ -655,7 +680,9 @@ fn cli_worlds_lane(base: u64, n: u64, workers: usize) -> CliLane {
                     }
                     continue;
                 }
-                let Some(Step::Inv(inv)) = case.steps.iter().find(|s| matches!(s, Step::Inv(Inv { shape: Shape::Files { mode: Mode::Stdout, .. } | Shape::Stdin { check: false }, .. }))).cloned() else { continue };
+                // any shape: stdout, stdin, --check, -i and format-all (for the writing modes the final
+                // trees are compared)
+                let Some(Step::Inv(inv)) = case.steps.iter().find(|s| matches!(s, Step::Inv(_))).cloned() else { continue };
                 let mut a = inv.clone();
                 a.plan.clear();
                 a.readdir = "sorted".into();
@@ -666,6 +693,12 @@ fn cli_worlds_lane(base: u64, n: u64, workers: usize) -> CliLane {
                 vsim::clisim::plan::add_plan(&mut frng, "benign", &case.tree, &mut b, &mut oracle, 40);
                 if b.env.is_empty() {
                     b.env.push(("COLUMNS".into(), "33".into()));
+                }
+                // a machine whose clock was never set (2001), or one far ahead (2033)
+                match frng.below(4) {
+                    0 => b.env.push(("VSIM_CLOCK_BASE".into(), "1000000000".into())),
+                    1 => b.env.push(("VSIM_CLOCK_BASE".into(), "2000000000".into())),
+                    _ => {}
                 }
                 match cli_worlds_differ(&env, &case.tree, &a, &b) {
                     Ok(res) => {
